@@ -910,6 +910,36 @@ fn stage_route(c: Cfg, mask: u32, universe: u64, keys: &[String], small: usize, 
 // replay
 // ---------------------------------------------------------------------------------------------
 
+/// Ring cases over arbitrary node ids (the mask-based stages use ids 1..=7): the ring built by `HashRing::new(order)`
+/// followed by `ops` must place `key` like the ring of the same members joined in ascending id order, with
+/// min(rf, n) distinct members.
+fn ring_case_ids(order: &[u64], ops: &[Op], c: Cfg, key: &str) -> Vec<(String, String)> {
+    let mut out = Vec::new();
+    let mut ring = HashRing::new(rids(order), c.v, c.rf);
+    let mut members: BTreeSet<u64> = order.iter().copied().collect();
+    for op in ops {
+        apply(&mut ring, *op);
+        if op.0 {
+            members.insert(op.1);
+        } else {
+            members.remove(&op.1);
+        }
+    }
+    let asc: Vec<u64> = members.iter().copied().collect();
+    let got: Vec<u64> = ring.get_replicas(key).iter().map(|r| r.0).collect();
+    let canon: Vec<u64> = HashRing::new(rids(&asc), c.v, c.rf).get_replicas(key).iter().map(|r| r.0).collect();
+    if got != canon {
+        let via = if ops.is_empty() { "join order (HashRing::new)" } else { history_class(ops) };
+        out.push((format!("ring placement depends on {via}"), format!("members {:?} joined as {:?} then [{}]: get_replicas({key:?}) = {:?}, joined in ascending order: {:?}", asc, order, show_ops(ops), got, canon)));
+    }
+    let exp = c.rf.min(asc.len());
+    let distinct: BTreeSet<u64> = got.iter().copied().collect();
+    if got.len() != exp || distinct.len() != got.len() || got.iter().any(|x| !members.contains(x)) {
+        out.push((format!("ring replica-list malformed (unusual ids)"), format!("members {:?} rf={}: get_replicas({key:?}) = {:?}", asc, c.rf, got)));
+    }
+    out
+}
+
 fn replay(r: &Value, path: &std::path::Path) -> ! {
     let c = Cfg {
         rf: r["rf"].as_u64().unwrap_or(3) as usize,
@@ -934,6 +964,19 @@ fn replay(r: &Value, path: &std::path::Path) -> ! {
             }
             let mut seen = BTreeSet::new();
             found.retain(|(k, _)| seen.insert(k.clone()));
+        }
+        Some("ring-ids") => {
+            let order = ids(&r["order"]);
+            let ops = ops_from_json(&r["ops"]);
+            let key = r["key"].as_str().unwrap_or("");
+            println!("ring new({:?}, vnodes={}, rf={}) then [{}], key {key:?}", order, c.v, c.rf, show_ops(&ops));
+            match catch_unwind(|| ring_case_ids(&order, &ops, c, key)) {
+                Ok(f) => found.extend(f),
+                Err(p) => found.push(("ring panic while building/looking up a ring".into(), vh::panic_text(&p))),
+            }
+            for (_, d) in &found {
+                println!("{d}");
+            }
         }
         Some("ring-successors") => {
             // the state reached by `ops` from the empty ring, expanded by every add/remove, all keys
@@ -1277,6 +1320,57 @@ fn main() {
     }
     let route_evals = route_evals + size_evals;
 
+    // ---- stage G: unusual node ids. Membership sets of 2 and 3 ids from a pool of ids whose decimal forms are
+    // prefixes / concatenations of one another, multi-digit ids and ids at the ends of the u64 range; every join order,
+    // and for 3-sets every remove-then-re-add of one member; rf 1 and 2, three vnode counts
+    let id_pool: Vec<u64> = vec![1, 2, 3, 10, 11, 12, 21, 23, 100, 101, 111, 123, 1 << 32, (1 << 32) + 1, u64::MAX - 1, u64::MAX];
+    let mut id_sets: Vec<Vec<u64>> = Vec::new();
+    for a in 0..id_pool.len() {
+        for b in a + 1..id_pool.len() {
+            id_sets.push(vec![id_pool[a], id_pool[b]]);
+            for cc in b + 1..id_pool.len() {
+                if thorough || id_pool[cc] <= 123 {
+                    id_sets.push(vec![id_pool[a], id_pool[b], id_pool[cc]]);
+                }
+            }
+        }
+    }
+    let id_keys: Vec<String> = keys.iter().take(if thorough { 400 } else { 150 }).cloned().collect();
+    let id_cfgs: Vec<Cfg> = [1usize, 2].iter().flat_map(|rf| [3u32, 16, 150].iter().map(move |v| Cfg { rf: *rf, v: *v })).collect();
+    let res = par::par_map(&id_sets, |_, set| {
+        let mut acc = Acc::default();
+        for order in permutations(set) {
+            let mut histories: Vec<Vec<Op>> = vec![vec![]];
+            if set.len() == 3 {
+                for x in set {
+                    histories.push(vec![(false, *x), (true, *x)]);
+                }
+            }
+            for c in &id_cfgs {
+                for ops in &histories {
+                    for k in &id_keys {
+                        acc.evals += 1;
+                        let r = catch_unwind(AssertUnwindSafe(|| ring_case_ids(&order, ops, *c, k)));
+                        let findings = match r {
+                            Ok(f) => f,
+                            Err(p) => vec![("ring panic while building/looking up a ring".to_string(), vh::panic_text(&p))],
+                        };
+                        for (sig, d) in findings {
+                            acc.hit(sig, || (d, json!({"check": "ring-ids", "order": order, "ops": ops_json(ops), "rf": c.rf, "vnodes": c.v, "key": k})));
+                        }
+                    }
+                }
+            }
+        }
+        acc
+    });
+    let mut id_evals = 0u64;
+    for a in res {
+        id_evals += a.evals;
+        total.merge(a);
+    }
+    let order_evals = order_evals + id_evals;
+
     // ---- report (sequential, deterministic order)
     let mut by_sig: BTreeMap<String, u64> = BTreeMap::new();
     for (sig, (count, detail, replay)) in &total.find {
@@ -1324,6 +1418,7 @@ fn main() {
         "rule": format!("placement cases = (membership set within {{1..{universe}}}, rf, vnodes, key), each evaluated once per join order (HashRing::new) and once per transition of the add/remove history closure; a placement case is non-trivial when the set has >= 2 members and rf < n (the list is a strict selection). Routing cases = (router constructor, membership set, rf, vnodes, sender, optional one-node ring change, api route_deltas|queue_deltas, batch) with batches = empty, every single key, every 2- and 3-sequence over the first {small} keys, the whole key set; non-trivial when some delta's owner set minus the sender is neither empty nor all peers. distinct_nontrivial = distinct non-trivial placement cases + non-trivial routing cases (all distinct by construction)."),
         "exhaustive": exhaustive,
         "batch_lengths": format!("every length 1..={max_batch} x sender in {{member 1, outsider 9}} x both apis on members [1,2,3,4] rf=2 vnodes=16 ({size_evals} cases)"),
+        "unusual_node_ids": format!("{} membership sets of 2-3 ids from {:?} x every join order x (3-sets: remove + re-add of each member) x rf {{1,2}} x vnodes {{3,16,150}} x {} keys ({id_evals} evaluations)", id_sets.len(), id_pool, id_keys.len()),
         "universe_nodes": universe,
         "membership_sets": nmask - 1,
         "join_orders": n_orders,
